@@ -52,11 +52,12 @@ func TestVerif_C15_Lifetimes(t *testing.T) {
 				if max > 0 && ttl > max {
 					continue // the role endpoint refuses ttl > max_ttl
 				}
+				// shards split the (mount, role ttl, role max) combinations; every shard sees all four bounds
+				idx++
+				if idx%shards != shard {
+					continue
+				}
 				for bi := 0; bi < 4; bi++ {
-					idx++
-					if idx%shards != shard {
-						continue
-					}
 					bound := []string{"permit", "ttl-limited", "forbid", time.Now().Add(20 * h).UTC().Format(time.RFC3339)}[bi]
 					issuer := "default"
 					if len(issuerNames) > 0 && rng.Chance(1, 2) {
